@@ -900,6 +900,14 @@ class Server(Node):
         if not self.check_app_constraints(app):
             return False
 
+        # Direct placement (eviction, restore) does not go through the
+        # buckets: check affinity limits on each level, all the way up.
+        node = self.parent
+        while node is not None:
+            if not node.check_app_affinity_limit(app):
+                return False
+            node = node.parent
+
         prev_capacity = self.free_capacity.copy()
         self.free_capacity -= app.demand
         self.apps[app.name] = app
